@@ -279,6 +279,11 @@ def annotated():
     CALLS.append("annotated")
     return helpers.named("a")
 
+def leaf_twice():
+    # the same kept node used twice in one body (min(prices()) ... max(prices()))
+    CALLS.append("leaf_twice")
+    return annotated() + "|" + annotated()
+
 def root():
     CALLS.append("root")
     out = {}
@@ -320,6 +325,7 @@ def root():
         ml_leaf,
         out["scaled"] + 1,
     )
+    out["twice"] = dds.keep("/c/twice", leaf_twice)  # (last: nothing after it depends on its position)
     return out
 ''',
 }
@@ -333,7 +339,7 @@ import os, importlib
 shipped = importlib.import_module(os.environ.get("CORPUS_PKG", "corp") + ".helpers").shipped
 '''
 
-ALL = ["/c/plain", "/c/scaled", "/c/items", "/c/flag", "/c/pair", "/c/direct", "/c/kw", "/c/href", "/c/batch", "/c/rate", "/c/tags", "/c/unit", "/c/order", "/c/wrapped", "/c/li", "/c/shadow", "/c/crlf", "/c/method", "/c/clsattr", "/c/reexp", "/c/ext", "/c/args", "/c/args2", "/c/args3", "/c/rt", "/c/dup", "/c/ml", "/c/ann_root", "/c/annotated", "/c/optional", "/c/top_args"]
+ALL = ["/c/plain", "/c/scaled", "/c/items", "/c/flag", "/c/pair", "/c/direct", "/c/kw", "/c/href", "/c/batch", "/c/rate", "/c/tags", "/c/unit", "/c/order", "/c/wrapped", "/c/twice", "/c/li", "/c/shadow", "/c/crlf", "/c/method", "/c/clsattr", "/c/reexp", "/c/ext", "/c/args", "/c/args2", "/c/args3", "/c/rt", "/c/dup", "/c/ml", "/c/ann_root", "/c/annotated", "/c/optional", "/c/top_args"]
 # edits: (name, file, old, new, kept paths whose cone contains the edit [besides the root], value must change for these)
 EDITS = [
     ("callee body (transitive)", "corp/helpers.py", "return 10", "return 11", ["/c/scaled", "/c/rt"]),
@@ -375,9 +381,10 @@ EDITS = [
     ("unrelated definition added", "corp/helpers.py", "def untouched():", "def brand_new():\n    return 0\n\ndef untouched():", []),
     ("non-accepted module body", "extmod.py", "return x * 100", "return x * 200", []),
 ]
-EDITS = [(n_, f_, o_, w_, (c_ + ["/c/dup", "/c/ml"]) if "/c/rt" in c_ else ((c_ + ["/c/ml"]) if "/c/annotated" in c_ else c_)) for (n_, f_, o_, w_, c_) in EDITS]  # /c/ml comes last: everything before it is its context
+EDITS = [(n_, f_, o_, w_, (c_ + ["/c/dup", "/c/ml"]) if "/c/rt" in c_ else ((c_ + ["/c/twice", "/c/ml"]) if "/c/annotated" in c_ else c_)) for (n_, f_, o_, w_, c_) in EDITS]
+EDITS = [(n_, f_, o_, w_, (c_ + ["/c/twice"]) if ("/c/annotated" in c_ and "/c/twice" not in c_) else c_) for (n_, f_, o_, w_, c_) in EDITS]  # /c/ml comes last: everything before it is its context
 # which kept paths read the edited variable only through a module attribute (consts.X) / with an untracked value type
-ATTR_READERS = {"str variable": ["/c/annotated"], "list variable": ["/c/items"], "dict variable": ["/c/items"], "bool variable": ["/c/flag"], "tuple variable": ["/c/pair"], "None variable": ["/c/pair"]}
+ATTR_READERS = {"str variable": ["/c/annotated", "/c/twice"], "list variable": ["/c/items"], "dict variable": ["/c/items"], "bool variable": ["/c/flag"], "tuple variable": ["/c/pair"], "None variable": ["/c/pair"]}
 UNTRACKED_TYPES = {"bool variable", "tuple variable", "None variable"}
 # a function that is referenced (not called) through a module attribute (helpers.neg) is not discovered: nothing tracks the
 # edit, so the later sibling /c/rt (whose call-site context would carry it) is stale for the same reason
@@ -640,7 +647,7 @@ def edit(d, rel, old, new):
     shutil.rmtree(os.path.join(os.path.dirname(p), "__pycache__"), ignore_errors=True)
 
 
-FUN_OF = {"/c/optional": "optional", "/c/shadow": "leaf_shadow", "/c/ml": "ml_leaf", "/c/crlf": "leaf_crlf", "/c/method": "leaf_method", "/c/clsattr": "leaf_clsattr", "/c/li": "leaf_li", "/c/dup": "dup_leaf", "/c/unit": "leaf_unit", "/c/order": "leaf_order", "/c/wrapped": "leaf_wrapped", "/c/batch": "leaf_batch", "/c/rate": "leaf_rate", "/c/tags": "leaf_tags", "/c/reexp": "leaf_reexp", "/c/top_args": "with_values", "/c/kw": "leaf_kw", "/c/href": "leaf_href", "/c/direct": "leaf_direct", "/c/plain": "leaf_plain", "/c/scaled": "leaf_scaled", "/c/items": "leaf_items", "/c/flag": "leaf_flag", "/c/pair": "leaf_pair", "/c/ext": "leaf_ext", "/c/args": "with_args:1", "/c/args2": "with_args:2", "/c/args3": "with_args:3", "/c/rt": "with_runtime", "/c/annotated": "annotated", "/c/ann_root": "root"}
+FUN_OF = {"/c/optional": "optional", "/c/shadow": "leaf_shadow", "/c/ml": "ml_leaf", "/c/crlf": "leaf_crlf", "/c/method": "leaf_method", "/c/clsattr": "leaf_clsattr", "/c/li": "leaf_li", "/c/dup": "dup_leaf", "/c/unit": "leaf_unit", "/c/order": "leaf_order", "/c/wrapped": "leaf_wrapped", "/c/twice": "leaf_twice", "/c/batch": "leaf_batch", "/c/rate": "leaf_rate", "/c/tags": "leaf_tags", "/c/reexp": "leaf_reexp", "/c/top_args": "with_values", "/c/kw": "leaf_kw", "/c/href": "leaf_href", "/c/direct": "leaf_direct", "/c/plain": "leaf_plain", "/c/scaled": "leaf_scaled", "/c/items": "leaf_items", "/c/flag": "leaf_flag", "/c/pair": "leaf_pair", "/c/ext": "leaf_ext", "/c/args": "with_args:1", "/c/args2": "with_args:2", "/c/args3": "with_args:3", "/c/rt": "with_runtime", "/c/annotated": "annotated", "/c/ann_root": "root"}
 
 
 def main():
